@@ -149,7 +149,7 @@ class LDAWrapper(LinearSolver):
         isel = self.nondiagonal_idx
         idia = self.diagonal_idx
 
-        dtype = np.result_type(A, rhs)
+        dtype = np.result_type(A, rhs, *b_data)  # Complex if the database is: a real rhs may need complex coefficients
         if rhs.ndim == 1:
             rhs_loc = np.zeros((rhs.size, 1), dtype=dtype)
             rhs_loc[:, 0] = rhs
@@ -198,9 +198,9 @@ class LDAWrapper(LinearSolver):
         if np.any(self._did_solve):
             if x0 is not None:
                 if x0.ndim == 1:
-                    x0_loc = x0.reshape(-1, 1).copy()
+                    x0_loc = x0.reshape(-1, 1).astype(dtype)
                 else:
-                    x0_loc = x0[..., self._did_solve].copy()
+                    x0_loc = x0[..., self._did_solve].astype(dtype)
                 x0_loc[idia, ...] = 0
                 for x in x_data:
                     beta = x0_loc[isel, ...].T @ x.conj() / (x.conj() @ x)
@@ -234,6 +234,8 @@ class LDAWrapper(LinearSolver):
                 x_data.append(xadd)
                 b_data.append(badd)
 
+        if not (matrix_is_complex(A) or np.iscomplexobj(rhs)):
+            sol = sol.real  # Imaginary parts from a complex database cancel
         if rhs.ndim == 1:
             return sol.flatten()
         else:
